@@ -71,6 +71,17 @@ class C05(CacheProp):
                 new += pat
             new += ["tok"] * min(60, 2 + sum(1 for o in new if o.startswith("set ")))
             c.ops = new + ops[pos:]
+        # the tombstone of a key must take effect even when the accounting no longer tracks the key's hash: a Del of a
+        # colliding twin (same primary hash, other conflict hash) sits between the buffered Set(k) and Del(k)
+        for j in range(max(2, n // 40)):
+            h = cachegen.mix(1300 + j)
+            lag = rng.randrange(0, 3)
+            ops = [["set", h, 10, 11, 30, rng.choice([0, 0, 60 * 10 ** 9])]] + [["tok"]] * (1 if lag == 0 else 0) + \
+                  [["del", h, 11], ["del", h, 10]] + [["tok"]] * 4 + [["wait"], ["get", h, 10], ["dump"], ["get", h, 10],
+                   ["set", h, 11, 12, 30, 0], ["tok"], ["tok"], ["wait"], ["get", h, 11], ["del", h, 11], ["tok"], ["wait"],
+                   ["get", h, 11], ["dump"]]
+            cases.append(cachegen.Case("ct%d" % j, "cache", g.header(1000, 8, True, True, 0, 5), ops,
+                                       tags=["profile:colltomb"]))
         return cases
 
     def oracle(self, case, il):
